@@ -312,10 +312,11 @@ ADDED8 = {
  'C09': ('', ' Round 8: consume(n) only with an amount taken from fill_buf (shared with C07).'),
  'C10': ('', ' Round 8: every Frame the decoder returns is the aggregate of the parsed header fields, its only errors are ReadError / InvalidOpcode; Frame.payload / Frame.length are not changed after construction; no buffering reader dropped at return and no bare read() larger than the 2 header bytes on the frame path.'),
  'C11': ('', ' Round 8: frame fields frozen, decoder outcomes and no dropped read-ahead (shared with C10).'),
- 'C12': ('', ' Round 8: nothing on the poll\'s read path takes bytes off the socket that it does not use (C10 rule).'),
+ 'C12': ('', ' Round 8: nothing on the poll\'s read path takes bytes off the socket that it does not use (C10 rule); the broadcast send is not inside a short-circuiting adaptor.'),
+ 'C16': ('', ' Round 8: outside cache.rs the cache is changed through Cache::set only (eviction and insertion are one critical section).'),
  'C14': ('', ' Round 8: the array a tuple struct serialises to is the n-element vector as built; integer FromJson casts the number to its own type (no detour through a narrower integer).'),
  'C15': ('', ' Round 8: matcher assumption behind the quoted-value slice (shared with C03).'),
- 'C17': ('', ' Round 8: the user list is searched independently of its order, or no method disturbs the order a binary search relies on.'),
+ 'C17': ('', ' Round 8: the user list is searched independently of its order, or no method disturbs the order a binary search relies on; every index / slice site of the auth crate discharges (client-chosen tokens are not sliced by byte position).'),
  'C18': ('', ' Round 8: the encoders\' length arithmetic does not underflow on the empty input.'),
  'C19': ('', ' Round 8: every header line is seen (shared with C02); Request.address is the one derived from this request.'),
  'C20': ('', ' Round 8: the wake-up connect is not retried in a loop between signal and join; worker ids are vector indices (C08 rule; a recovery join of the wrong worker blocks the pool\'s Drop).'),
